@@ -153,6 +153,10 @@ type HandlerCfg struct {
 var handlerCfgs = []HandlerCfg{
 	{Name: "none", Kind: "translate"},
 	{Name: "default", Kind: "translate", OnError: []config.MechanismConfig{{"error_handler": "eh_default"}}},
+	// handlers are configured, but none of them applies to the failure: the failure itself is what gets translated
+	{Name: "none-applicable", Kind: "translate", OnError: []config.MechanismConfig{
+		{"error_handler": "eh_redirect", "if": "false"}, {"error_handler": "eh_default", "if": "false"},
+	}},
 	{Name: "redirect302", Kind: "redirect", Code: 302, Loc: "http://idp.local/login?return_to=" + url.QueryEscape("/redirect302"),
 		OnError: []config.MechanismConfig{{"error_handler": "eh_redirect"}}},
 	{Name: "redirect301", Kind: "redirect", Code: 301, Loc: redirectTo301,
